@@ -18,7 +18,12 @@
                           send: as soon as the channel is closed its only step is the panic);
                           on an open unbuffered channel a send and a receive of two different
                           threads happen together (rendezvous: ONE transition moves both threads);
-                          `default` is taken only if no case can proceed.
+                          exactly as in the Go runtime one of the two must already be PARKED in
+                          its blocking select / send / receive: a thread that executes a select
+                          takes one of the cases that can proceed right now (channel closed, or a
+                          partner parked on the dual operation); if there is none it takes
+                          `default`, or else parks (a step that only sets its parked flag) and
+                          is from then on woken by a partner, by a close, or by its timer.
      IClose c             close(c); close of a closed channel panics.
      IOnceClose o c       o.Do(func() { close(c) }) with o a sync.Once: atomic test-and-set + close.
                           (sync.Once makes other callers wait until the first call has returned;
@@ -91,6 +96,7 @@ Definition PANIC_CLOSE_OF_CLOSED := 2.
 
 Record state := mkState {
   pcs : list pc;       (* one per thread *)
+  parked : list nat;   (* one per thread: 1 = blocked inside the select it stands at *)
   closed : list nat;   (* one per channel: 1 = closed *)
   vars : list nat;     (* synchronised and plain shared variables, mutexes, onces *)
   panic : nat          (* 0 = none *)
@@ -108,13 +114,16 @@ Definition is_closed (s : state) (c : chan) : bool := Nat.eqb (nth c (closed s) 
 Definition var_of (s : state) (v : var) : nat := nth v (vars s) 0.
 
 Definition set_pc (s : state) (t : tid) (p : pc) : state :=
-  mkState (upd (pcs s) t p) (closed s) (vars s) (panic s).
+  mkState (upd (pcs s) t p) (upd (parked s) t 0) (closed s) (vars s) (panic s).
+Definition set_parked (s : state) (t : tid) : state :=
+  mkState (pcs s) (upd (parked s) t 1) (closed s) (vars s) (panic s).
+Definition is_parked (s : state) (t : tid) : bool := Nat.eqb (nth t (parked s) 0) 1.
 Definition set_closed (s : state) (c : chan) : state :=
-  mkState (pcs s) (upd (closed s) c 1) (vars s) (panic s).
+  mkState (pcs s) (parked s) (upd (closed s) c 1) (vars s) (panic s).
 Definition set_var (s : state) (v : var) (x : nat) : state :=
-  mkState (pcs s) (closed s) (upd (vars s) v x) (panic s).
+  mkState (pcs s) (parked s) (closed s) (upd (vars s) v x) (panic s).
 Definition set_panic (s : state) (k : nat) : state :=
-  mkState (pcs s) (closed s) (vars s) k.
+  mkState (pcs s) (parked s) (closed s) (vars s) k.
 
 Definition chop_eqb (a b : chop) : bool :=
   match a, b with
@@ -146,22 +155,23 @@ Lemma list_eqb_refl : forall a, list_eqb a a = true.
 Proof. induction a; cbn; auto. rewrite Nat.eqb_refl. auto. Qed.
 
 Definition state_eqb (a b : state) : bool :=
-  list_eqb (pcs a) (pcs b) && list_eqb (closed a) (closed b) && list_eqb (vars a) (vars b)
-  && Nat.eqb (panic a) (panic b).
+  list_eqb (pcs a) (pcs b) && list_eqb (parked a) (parked b) && list_eqb (closed a) (closed b)
+  && list_eqb (vars a) (vars b) && Nat.eqb (panic a) (panic b).
 
 Lemma state_eqb_eq : forall a b, state_eqb a b = true -> a = b.
 Proof.
-  intros [p1 c1 v1 k1] [p2 c2 v2 k2]. unfold state_eqb; cbn. intros H.
+  intros [p1 q1 c1 v1 k1] [p2 q2 c2 v2 k2]. unfold state_eqb; cbn. intros H.
   apply andb_true_iff in H. destruct H as [H Hk].
   apply andb_true_iff in H. destruct H as [H Hv].
-  apply andb_true_iff in H. destruct H as [Hp Hc].
-  apply list_eqb_eq in Hp. apply list_eqb_eq in Hc. apply list_eqb_eq in Hv.
-  apply Nat.eqb_eq in Hk. subst. reflexivity.
+  apply andb_true_iff in H. destruct H as [H Hc].
+  apply andb_true_iff in H. destruct H as [Hp Hq].
+  apply list_eqb_eq in Hp. apply list_eqb_eq in Hq. apply list_eqb_eq in Hc.
+  apply list_eqb_eq in Hv. apply Nat.eqb_eq in Hk. subst. reflexivity.
 Qed.
 
 Lemma state_eqb_refl : forall a, state_eqb a a = true.
 Proof.
-  intros [p c v k]. unfold state_eqb; cbn. rewrite !list_eqb_refl, Nat.eqb_refl. reflexivity.
+  intros [p q c v k]. unfold state_eqb; cbn. rewrite !list_eqb_refl, Nat.eqb_refl. reflexivity.
 Qed.
 
 (* hash key: every component in unary (x ones, then a zero), pushed onto one positive number: a
@@ -172,7 +182,8 @@ Fixpoint push_nat (x : nat) (p : positive) : positive :=
 Definition key_list (l : list nat) (acc : positive) : positive :=
   fold_left (fun a x => push_nat x a) l acc.
 Definition key (s : state) : positive :=
-  push_nat (panic s) (key_list (vars s) (key_list (closed s) (key_list (pcs s) xH))).
+  push_nat (panic s)
+    (key_list (vars s) (key_list (closed s) (key_list (parked s) (key_list (pcs s) xH)))).
 
 Definition sset := PositiveMap.t state.
 Definition sempty : sset := PositiveMap.empty state.
@@ -235,15 +246,12 @@ Section Conc.
     | None => None
     end.
 
-  (* threads u <> t standing at a select that offers the operation [want]; a rendezvous needs one
-     side to be able to wait, so two non-blocking selects never meet *)
-  Definition partners (sy : sys) (s : state) (t : tid) (want : chop) (me_default : bool)
-    : list (tid * pc) :=
+  (* threads u <> t PARKED in a select that offers the operation [want] *)
+  Definition partners (sy : sys) (s : state) (t : tid) (want : chop) : list (tid * pc) :=
     flat_map (fun u =>
-      if Nat.eqb u t then [] else
+      if Nat.eqb u t || negb (is_parked s u) then [] else
       match instr_at sy s u with
-      | ISelect cases e =>
-          if me_default && is_default e then [] else
+      | ISelect cases _ =>
           flat_map (fun cm => if chop_eqb (fst cm) want then [(u, snd cm)] else []) cases
       | _ => []
       end) (tids sy).
@@ -255,24 +263,33 @@ Section Conc.
 
   Definition step_select (sy : sys) (s : state) (t : tid) (cases : list (chop * pc))
              (e : sel_else) : list state :=
-    let comm :=
+    (* cases that can proceed because their channel is closed *)
+    let by_close :=
       flat_map (fun cn =>
-        let op := fst cn in let n := snd cn in
-        if is_closed s (chop_chan op) then
-          match op with
-          | Rcv _ => [set_pc s t n]
+        if is_closed s (chop_chan (fst cn)) then
+          match fst cn with
+          | Rcv _ => [set_pc s t (snd cn)]
           | Snd _ => [set_panic s PANIC_SEND_ON_CLOSED]
           end
-        else
-          map (fun um => set_pc (set_pc s t n) (fst um) (snd um))
-              (partners sy s t (chop_dual op) (is_default e))) cases in
-    let ready_by_close := existsb (fun cn => is_closed s (chop_chan (fst cn))) cases in
-    comm ++
-    match e with
-    | SBlock => []
-    | SDefault d => if ready_by_close then [] else [set_pc s t d]
-    | STimer p => [set_pc s t p]
-    end.
+        else []) cases in
+    let timer := match e with STimer p => [set_pc s t p] | _ => [] end in
+    if is_parked s t then
+      (* woken by a close or by the timer; a rendezvous is the step of the partner that arrives *)
+      by_close ++ timer
+    else
+      let by_partner :=
+        flat_map (fun cn =>
+          if is_closed s (chop_chan (fst cn)) then []
+          else map (fun um => set_pc (set_pc s t (snd cn)) (fst um) (snd um))
+                   (partners sy s t (chop_dual (fst cn)))) cases in
+      match by_close ++ by_partner with
+      | [] =>
+          match e with
+          | SDefault d => [set_pc s t d]
+          | _ => set_parked s t :: timer
+          end
+      | ready => ready ++ timer
+      end.
 
   Definition step_instr (sy : sys) (s : state) (t : tid) (i : instr) : list state :=
     match i with
@@ -737,7 +754,7 @@ Section Conc.
 
   Definition init_config (sy : sys) : state :=
     let s := init sy in
-    mkState (pcs s) (closed s)
+    mkState (pcs s) (parked s) (closed s)
             (vars s ++ map (fun t => match label_at sy s t with
                                      | Some l => pend_code l true
                                      | None => 0
